@@ -39,6 +39,12 @@ class CallGraph:
                     continue
                 tgt = names[0]
                 self._add(fid, tgt, b, t)
+                if fu.get("declared") == "std::convert::Into::into":
+                    subs = fu.get("substs") or []
+                    if len(subs) >= 2:
+                        for g in facts["fns"]:
+                            if g.get("impl_trait") == "std::convert::From" and g.get("impl_self") == subs[1] and (g.get("inputs") or [""])[0] == subs[0]:
+                                self._add(fid, g["id"], b, t)
                 if fu.get("declared") in FN_TRAIT_CALLS:
                     self_ty = (fu.get("substs") or [""])[0]
                     if "dyn " in self_ty or self_ty.startswith("fn(") or " fn(" in self_ty:
